@@ -208,6 +208,30 @@ def _block(repo, col):
             dn = unparse(d)
             if any(b in dn for b in ("custom_jvp", "custom_vjp")):
                 col.bad(R, fi, f"decorator {dn}", "a hand-written derivative rule replaces autodiff; its correctness is not checked here", node=d)
+    # value-dependent selection between branches that are EQUAL IN VALUE but not in their derivative
+    nsel = 0
+    for fi in _scope(repo):
+        for c in ast.walk(fi.node):
+            if not isinstance(c, ast.Call):
+                continue
+            fn = unparse(c.func)
+            last = fn.split(".")[-1]
+            if last == "where" and len(c.args) == 3 and fn.split(".")[0] in ("jnp", "jax", "lax"):
+                nsel += 1
+                ties = [q for q in ast.walk(c.args[0]) if isinstance(q, ast.Compare) and len(q.ops) == 1 and isinstance(q.ops[0], (ast.Eq, ast.NotEq))
+                        and not any(isinstance(o_, ast.Constant) or (isinstance(o_, ast.UnaryOp) and isinstance(o_.operand, ast.Constant))
+                                    for o_ in (q.left, q.comparators[0]))]
+                col.check(not ties, R, fi, f"{fn}(...) in {fi.qual}: `{unparse(c.args[0])[:40]}` selects on an inequality or against a constant",
+                          "no tie between two traced quantities",
+                          f"`{unparse(c)[:90]}` takes one branch exactly where two traced quantities are EQUAL: the branches may agree in value there, but autodiff "
+                          f"differentiates only the selected one, with the other quantity held fixed -- the partial derivatives at the tie (e.g. equal radii of "
+                          f"neighbouring compartments, the default) are those of another function", node=c)
+            if last in ("cond", "switch", "select") and (fn.split(".")[0] in ("lax", "jax") or fn in ("cond", "switch")) and c.args:
+                nsel += 1
+                data = [x.id for x in ast.walk(c.args[0]) if isinstance(x, ast.Name) and x.id in fi.params]
+                col.check(not data, R, fi, f"{fn}(...) in {fi.qual}: no branch is chosen by the values of the inputs", "static control flow",
+                          f"`{unparse(c)[:90]}` chooses a branch from the VALUES of `{data[0] if data else ''}`: where the constant branch is taken (an input that is "
+                          f"exactly 0 at a time step) the derivative with respect to that input is 0, although the result depends on it", node=c)
     col.info["primitive_calls_examined"] = n
     if n < 40:
         raise AnalysisError(f"only {n} library calls found on the simulation path")
